@@ -163,7 +163,8 @@ func (w *World) implementers(it types.Type) []types.Type {
 			continue
 		}
 		if types.Implements(t, iface) {
-			res = append(res, t)
+			// the method set of *T includes that of T: both can be stored in the interface
+			res = append(res, t, types.NewPointer(t))
 		} else if pt := types.NewPointer(t); types.Implements(pt, iface) {
 			res = append(res, pt)
 		}
